@@ -667,7 +667,7 @@ fn f3_program(env: &Environment, prog: &gen::Program, depth: usize, acc: &Acc, l
 }
 
 fn f3(tier: Tier, acc: &Acc) {
-    let opts = |d| gen::Opts { depth: d, max_programs: u64::MAX, multi_template: false, loop_controls: true };
+    let opts = |d| gen::Opts { depth: d, max_programs: u64::MAX, multi_template: false, loop_controls: true, extra_leaves: false };
     let run = |depth: usize, stride: u64| {
         let o = opts(depth);
         let size = gen::Gen::new(o).size();
@@ -776,7 +776,7 @@ pub fn main(args: Args) -> i32 {
             }
             _ => {
                 let depth = j["depth"].as_u64().unwrap() as usize;
-                let g = gen::Gen::new(gen::Opts { depth, max_programs: u64::MAX, multi_template: false, loop_controls: true });
+                let g = gen::Gen::new(gen::Opts { depth, max_programs: u64::MAX, multi_template: false, loop_controls: true, extra_leaves: false });
                 let prog = g.program(j["index"].as_u64().unwrap());
                 println!("source: {}", prog.source());
                 let mut l = Local::default();
